@@ -692,6 +692,30 @@ def check_match_record(cx: Cx, ob: Ob) -> None:
             )
     e = early(lp.body)
     if excused:
+        # a switch that add_record sets: stopping at the first match is harmless exactly when any match is fatal
+        # (merge not set: one match raises as well as several); with merge set the second match must be seen
+        sw = sorted({x[1] for g in excused for x in subterms(g.a) if op(x) == "param" and x[1] not in ("case_sensitive",) and fn.param(x[1]) is not None})
+        ar = cx.model.functions.get(f"{CONV}.add_record")
+        if len(sw) == 1 and ar is not None:
+            ars = cx.summary(ar, ob.id)
+            vals = {dict(c_[3]).get(sw[0]) for c_, _, _ in ars.calls(fn.name)}
+            prm = fn.param(sw[0])
+            # polarity: the exit is taken when the switch is FALSE (`not exhaustive`) or TRUE (`first_only`)
+            exit_when_true = any(g.a == ("param", sw[0]) and g.b is True for g in excused)
+            full_when = (lambda v: v == ("param", "merge") or is_const(v, True)) if not exit_when_true else (lambda v: v == ("not", ("param", "merge")) or is_const(v, False))
+            if vals and None not in vals and all(full_when(v) for v in vals):
+                ob.site(f"{fn.where} {fn.qualname}", f"early exit switched by `{sw[0]}`, which add_record sets so that the scan is complete whenever merge is set")
+                excused = []
+            elif vals and None not in vals and all((v == ("not", ("param", "merge")) or is_const(v, False)) if not exit_when_true else (v == ("param", "merge") or is_const(v, True)) for v in vals):
+                ob.violate(
+                    fn.qualname,
+                    where(ar, ar.node.lineno),
+                    f"add_record asks _match_record for an incomplete scan (`{sw[0]}={show(next(iter(vals)))}`) exactly when merge is set: a record that bridges two existing records is merged into the first instead of rejected",
+                    witness="records a and b, then add_record(Record(prefix='a', uri_prefix=<b's URI prefix>), merge=True)",
+                    detail="early-exit",
+                )
+                excused = []
+    if excused:
         ob.undecide(f"_match_record can leave the scan of self.records early when `{show(excused[0].a)[:60]}` (a switch of the callers / a look into the lookup tables): that no second matching record is missed then is not decided")
     if e is not None:
         ob.violate(fn.qualname, where(fn, e), "_match_record leaves the scan of self.records early: a record overlapping two existing records is reported as a single match", detail="early-exit")
